@@ -1,8 +1,10 @@
 package props
 
 import (
+	"github.com/freeconf/yang/meta"
 	"github.com/freeconf/yang/parser"
 	"reflect"
+	"sort"
 	"errors"
 	"io"
 	"fmt"
@@ -121,13 +123,15 @@ func c08expectLeaves(kids []*gen.SNode, body []*gen.DNode) string {
 func c08names(c *core.Ctx) {
 	files := map[string]string{
 		"b": `module b { namespace "urn:b"; prefix bp; revision 2020-01-01; grouping g { container gc { leaf gl { type string; } container in { leaf q { type string; } } } } container c { leaf x { type string; } } }`,
-		"a": `module a { namespace "urn:a"; prefix ap; revision 2020-01-01; import b { prefix bp; } uses bp:g; container c { leaf z { type string; } }
+		"a": `module a { namespace "urn:a"; prefix ap; revision 2020-01-01; import b { prefix bp; } include a-sub; uses bp:g; container c { leaf z { type string; } }
   augment "/c" { leaf aug { type string; } }
   container fruit { leaf apple { type string; } leaf pear { type string; } }
   container top { container gc { leaf q { type string; } } uses bp:g { refine gc { description "again"; } } }
   list country { key name; leaf name { type string; } container detail { leaf ally { type string; } } list city { key "n i"; leaf n { type string; } leaf i { type int32; } leaf pop { type int32; } } }
   list fruits { key name; leaf name { type string; } choice shipment { case water { container boat { leaf n { type string; } } } case air { container plane { leaf n { type string; } } } } } }`,
 	}
+	// nodes written in a submodule belong to the module: a step is qualified with the module's name, never the submodule's
+	files["a-sub"] = `submodule a-sub { belongs-to a { prefix ap; } container subc { leaf sl { type string; } } list bird { key name; leaf name { type string; } leaf wing { type string; } } }`
 	files["a"] = strings.Replace(files["a"], `container gc { leaf q { type string; } } uses bp:g { refine gc { description "again"; } }`, `container sub { uses bp:g; }`, 1)
 	opener := func(name, ext string) (io.Reader, error) {
 		if y, ok := files[name]; ok {
@@ -140,7 +144,7 @@ func c08names(c *core.Ctx) {
 		c.Violation(core.Replay{Kind: "property-failure", Class: "names-load", Summary: "valid module set does not load: " + err.Error(), Input: files})
 		return
 	}
-	data := `{"gc":{"gl":"GL","in":{"q":"Q"}},"c":{"z":"Z","aug":"A"},"fruit":{"apple":"A","pear":"P"},"top":{"sub":{"gc":{"gl":"G2"}}},"country":[{"name":"US","detail":{"ally":"UK"},"city":[{"n":"NY","i":1,"pop":8}]}],"fruits":[{"name":"apple","boat":{"n":"B"}}]}`
+	data := `{"gc":{"gl":"GL","in":{"q":"Q"}},"c":{"z":"Z","aug":"A"},"fruit":{"apple":"A","pear":"P"},"top":{"sub":{"gc":{"gl":"G2"}}},"country":[{"name":"US","detail":{"ally":"UK"},"city":[{"n":"NY","i":1,"pop":8}]}],"fruits":[{"name":"apple","boat":{"n":"B"}}],"subc":{"sl":"S"},"bird":[{"name":"owl","wing":"w"},{"name":"blue jay","wing":"b"}]}`
 	root := func() *node.Selection {
 		n, _ := nodeutil.ReadJSON(data)
 		return node.NewBrowser(m, n).Root()
@@ -191,6 +195,15 @@ func c08names(c *core.Ctx) {
 		{"", "gc/a:gl", "not-found"},
 		{"", "top/a:sub/b:gc/gl", "a/top/sub/gc/gl"},
 		{"", "top/sub/a:gc", "not-found"},
+		// nodes of a submodule
+		{"", "a:subc", "a/subc"},
+		{"", "a:subc/a:sl", "a/subc/sl"},
+		{"", "a-sub:subc", "not-found"},
+		{"", "subc/a-sub:sl", "not-found"},
+		{"", "a:bird=owl", "a/bird=owl"},
+		{"", "bird=blue%20jay/a:wing", "a/bird=blue+jay/wing"},
+		{"", "a-sub:bird=owl", "not-found"},
+		{"subc", "../a:bird=owl/a:wing", "a/bird=owl/wing"},
 		// a step is one data node
 		{"", "fruits=apple/shipment", "not-found"},
 		{"", "fruits=apple/water", "not-found"},
@@ -258,7 +271,7 @@ func c08names(c *core.Ctx) {
 
 func C08(c *core.Ctx) {
 	c08names(c)
-	c.Rule = "for every container and list entry of generated trees (depth ≤4, lists in lists, compound keys, hostile key alphabet / , = % + blank non-ASCII empty): Find from the root, with a trailing slash, module-qualified, from a deeper start selection through ../ steps, and with a query parameter; the selection's content, its rendered path (re-parsed and re-found), absent keys/containers, unknown names, store unchanged; the Lean path codec is compared with Path.String on the same segments; start selections on a set leaf (its Parent(), its path, ../ steps from it); a store that answers lookups by key without returning the key. non-trivial = node at depth ≥2 or with a key needing escaping; distinct by (tree, node, variant); directed (c08names): two modules, an imported grouping, an augment, a choice: 34 qualified, misqualified, choice/case and percent-encoded-slash steps from the root and from deeper starts, the rendered path of leaf selections found from every start, Path.Equal on 6 pairs"
+	c.Rule = "for every container and list entry of generated trees (depth ≤4, lists in lists, compound keys, hostile key alphabet / , = % + blank non-ASCII empty): Find from the root, with a trailing slash, module-qualified, from a deeper start selection through ../ steps, and with a query parameter; the selection's content, its rendered path (re-parsed and re-found), absent keys/containers, unknown names, store unchanged; the Lean path codec is compared with Path.String on the same segments; start selections on a set leaf (its Parent(), its path, ../ steps from it); a store that answers lookups by key without returning the key. non-trivial = node at depth ≥2 or with a key needing escaping; distinct by (tree, node, variant); against the Lean model of parseUrlPath + findSlice (Model/Find.lean): paths to existing nodes, leaves (set, unset with default), lists without key, absent keys and containers and steps below them, unknown names at the end and in the middle, keys on containers and leaves, one key component too few / too many, steps below a leaf and below a keyless list - verdict (found / nothing / not-found / bad request) and the selected content (leaf views, row keys, leaf value) must be the model's; directed (c08names): two modules, an imported grouping, an augment, a choice: 34 qualified, misqualified, choice/case and percent-encoded-slash steps from the root and from deeper starts, the rendered path of leaf selections found from every start, Path.Equal on 6 pairs"
 	c.Assumptions = append(c.Assumptions, "net/url.QueryEscape/QueryUnescape are modelled on bytes (Model/Path.lean) and compared on every generated key")
 	c.ProofStep("YangVerif.Props.C08")
 	if c.Thorough() {
@@ -270,6 +283,8 @@ func C08(c *core.Ctx) {
 	var lines []string
 	type pend struct{ desc, goPath string }
 	var pends []pend
+	var flines []string
+	var fpends []c08fpend
 	for ti := 0; ti < nTrees; ti++ {
 		dc, err := newDataCase(rng.Fork(), o)
 		if err != nil {
@@ -336,6 +351,9 @@ func C08(c *core.Ctx) {
 			return map[string]interface{}{"yang": dc.yang, "tree": before, "target_impl": tgtKind, "path": n.path, "variant": variant}
 		}
 		compound := compoundKeyRe.MatchString(dc.yang)
+		if ti%5 != 4 && !c08lenient {
+			c08findModelCases(c, r.Fork(), dc, tree, nodes, b, tgtKind, &flines, &fpends)
+		}
 		for ni, n := range nodes {
 			if ni > 60 {
 				break
@@ -498,6 +516,7 @@ func C08(c *core.Ctx) {
 			c.Violation(core.Replay{Kind: "property-failure", Class: "find-mutates-" + tgtKind, Summary: "navigation changed the store", Input: map[string]interface{}{"yang": dc.yang, "before": before, "after": after}})
 		}
 	}
+	c08findModelCompare(c, flines, fpends)
 	outs, err := core.RunDriver(lines)
 	if err != nil {
 		c.ProofBroken = append(c.ProofBroken, err.Error())
@@ -518,5 +537,277 @@ func C08(c *core.Ctx) {
 	}
 	if c.Disagree > 0 && c.Violations() == 0 {
 		c.Violation(core.Replay{Kind: "correspondence", Summary: fmt.Sprintf("path renderer model and Path.String disagree on %d paths that re-parse correctly", c.Disagree), Broken: "correspondence C08/render", NoInputFound: true})
+	}
+}
+
+// ---- Find against the Lean model of parseUrlPath + findSlice (Model/Find.lean) ----
+
+type c08fseg struct {
+	name string
+	i    int
+	keys []string
+}
+
+type c08fpend struct {
+	desc, lib string
+	input     map[string]interface{}
+}
+
+func c08fpath(segs []c08fseg) string {
+	var parts []string
+	for _, s := range segs {
+		if s.keys != nil {
+			parts = append(parts, keyPath(s.name, s.keys))
+		} else {
+			parts = append(parts, s.name)
+		}
+	}
+	return strings.Join(parts, "/")
+}
+
+func c08fline(dc *dataCase, tree []*gen.DNode, segs []c08fseg) string {
+	out := []string{fmt.Sprint(len(segs))}
+	for _, s := range segs {
+		out = append(out, fmt.Sprint(s.i), fmt.Sprint(len(s.keys)))
+		for _, k := range s.keys {
+			out = append(out, "h"+core.Hex(k))
+		}
+	}
+	return "data find ; " + strings.Join(gen.SchemaTokens(dc.kids), " ") + " ; " + strings.Join(gen.BodyTokens(dc.kids, tree), " ") + " ; " + strings.Join(out, " ")
+}
+
+// what the library's Find gave, in the words of the model's answer
+func c08libVerdict(sel *node.Selection, err error) (res string) {
+	defer func() {
+		if r := recover(); r != nil {
+			res = fmt.Sprintf("PANIC:%v", r)
+		}
+	}()
+	switch {
+	case err != nil && errors.Is(err, fc.NotFoundError):
+		return "notFound"
+	case err != nil && errors.Is(err, fc.BadRequestError):
+		return "bad"
+	case err != nil:
+		return "error:" + err.Error()
+	case sel == nil:
+		return "none"
+	}
+	m := sel.Meta()
+	if meta.IsLeaf(m) {
+		v, gerr := sel.Get()
+		if gerr != nil {
+			return "found leaf error:" + gerr.Error()
+		}
+		if v == nil {
+			return "found leaf ~"
+		}
+		return "found leaf h" + core.Hex(v.String())
+	}
+	if meta.IsList(m) && !sel.InsideList {
+		var keys []string
+		it, ierr := sel.First()
+		for ierr == nil && it.Selection != nil {
+			var ks []string
+			for _, k := range it.Key {
+				ks = append(ks, "h"+core.Hex(k.String()))
+			}
+			keys = append(keys, strings.Join(ks, ","))
+			it, ierr = it.Next()
+		}
+		if ierr != nil {
+			return "found rows error:" + ierr.Error()
+		}
+		sort.Strings(keys)
+		return strings.TrimSpace("found rows " + strings.Join(keys, " "))
+	}
+	out := []string{"found body"}
+	for _, d := range m.(meta.HasDataDefinitions).DataDefinitions() {
+		if !meta.IsLeaf(d) {
+			out = append(out, "-")
+			continue
+		}
+		v, gerr := sel.GetValue(d.Ident())
+		switch {
+		case gerr != nil:
+			out = append(out, "error:"+gerr.Error())
+		case v == nil:
+			out = append(out, "~")
+		default:
+			out = append(out, "h"+core.Hex(v.String()))
+		}
+	}
+	return strings.Join(out, " ")
+}
+
+func c08sortRows(model string) string {
+	if !strings.HasPrefix(model, "found rows") {
+		return model
+	}
+	ks := strings.Fields(strings.TrimPrefix(model, "found rows"))
+	sort.Strings(ks)
+	return strings.TrimSpace("found rows " + strings.Join(ks, " "))
+}
+
+// paths that name a node and paths that do not (absent key, absent container, unknown name, a key where none belongs,
+// too few / too many key components, a step below a leaf, a list without its key in the middle): the library's verdict
+// and what it selected are put next to the model's
+func c08findModelCases(c *core.Ctx, r *core.Rng, dc *dataCase, tree []*gen.DNode, nodes []c08node, b *node.Browser, tgtKind string, lines *[]string, pends *[]c08fpend) {
+	before := gen.Canon(dc.kids, tree, false)
+	resolve := func(n c08node) ([]c08fseg, []*gen.SNode, []*gen.DNode) {
+		kids, body := dc.kids, tree
+		var out []c08fseg
+		for _, sg := range n.segs {
+			name := sg[0].(string)
+			keys, _ := sg[1].([]string)
+			idx := -1
+			for i, k := range kids {
+				if k.Name == name {
+					idx = i
+				}
+			}
+			if idx < 0 {
+				return nil, nil, nil
+			}
+			out = append(out, c08fseg{name, idx, keys})
+			if kids[idx].Kind == "list" {
+				var nb []*gen.DNode
+				for _, row := range body[idx].Rows {
+					if reflect.DeepEqual(row.Key, keys) {
+						nb = row.Kids
+					}
+				}
+				kids, body = kids[idx].Kids, nb
+			} else {
+				kids, body = kids[idx].Kids, body[idx].Kids
+			}
+		}
+		return out, kids, body
+	}
+	add := func(kind string, segs []c08fseg) {
+		p := c08fpath(segs)
+		var sel *node.Selection
+		var err error
+		func() {
+			defer func() {
+				if rr := recover(); rr != nil {
+					err = fmt.Errorf("PANIC: %v", rr)
+				}
+			}()
+			sel, err = b.Root().Find(p)
+		}()
+		c.Evaluations++
+		c.Count("find-model", kind)
+		*lines = append(*lines, c08fline(dc, tree, segs))
+		*pends = append(*pends, c08fpend{fmt.Sprintf("%s Find(%q) [%s]", tgtKind, p, kind), c08libVerdict(sel, err),
+			map[string]interface{}{"yang": dc.yang, "tree": before, "target_impl": tgtKind, "path": p, "kind": kind}})
+	}
+	cp := func(s []c08fseg) []c08fseg { return append([]c08fseg{}, s...) }
+	absentKey := func(l *gen.SNode) []string {
+		var key []string
+		for j := 0; j < l.NKeys; j++ {
+			if l.Kids[j].Type == "int32" {
+				key = append(key, "777")
+			} else {
+				key = append(key, "no/such,key")
+			}
+		}
+		return key
+	}
+	level := func(prefix []c08fseg, kids []*gen.SNode, body []*gen.DNode) {
+		for i, k := range kids {
+			switch k.Kind {
+			case "leaf":
+				if r.Chance(40) {
+					add("leaf", append(cp(prefix), c08fseg{k.Name, i, nil}))
+				}
+				if r.Chance(10) {
+					add("below-a-leaf", append(cp(prefix), c08fseg{k.Name, i, nil}, c08fseg{k.Name, i, nil}))
+				}
+				if r.Chance(10) {
+					add("key-on-a-leaf", append(cp(prefix), c08fseg{k.Name, i, []string{"x"}}))
+				}
+			case "cont":
+				if !body[i].Present {
+					add("absent-container", append(cp(prefix), c08fseg{k.Name, i, nil}))
+					if len(k.Kids) > 0 && r.Chance(50) {
+						add("below-absent-container", append(cp(prefix), c08fseg{k.Name, i, nil}, c08fseg{k.Kids[0].Name, 0, nil}))
+					}
+				}
+				if r.Chance(25) {
+					add("key-on-a-container", append(cp(prefix), c08fseg{k.Name, i, []string{"x"}}))
+				}
+			case "list":
+				add("list-without-key", append(cp(prefix), c08fseg{k.Name, i, nil}))
+				if r.Chance(50) {
+					add("list-without-key-in-the-middle", append(cp(prefix), c08fseg{k.Name, i, nil}, c08fseg{k.Kids[0].Name, 0, nil}))
+				}
+				add("absent-key", append(cp(prefix), c08fseg{k.Name, i, absentKey(k)}))
+				if r.Chance(50) {
+					add("below-absent-key", append(cp(prefix), c08fseg{k.Name, i, absentKey(k)}, c08fseg{k.Kids[0].Name, 0, nil}))
+				}
+				if k.NKeys > 1 && len(body[i].Rows) > 0 {
+					// keys that share components with entries that exist: an absent first component with the rest of an
+					// entry's key, and the first component of one entry with the rest of another's
+					rows := body[i].Rows
+					ra, rb := rows[r.Intn(len(rows))], rows[r.Intn(len(rows))]
+					half := append([]string{absentKey(k)[0]}, ra.Key[1:]...)
+					add("key-sharing-the-last-components", append(cp(prefix), c08fseg{k.Name, i, half}))
+					mixed := append([]string{ra.Key[0]}, rb.Key[1:]...)
+					add("key-mixed-of-two-entries", append(cp(prefix), c08fseg{k.Name, i, mixed}))
+					first := append([]string{ra.Key[0]}, absentKey(k)[1:]...)
+					add("key-sharing-the-first-component", append(cp(prefix), c08fseg{k.Name, i, first}))
+				}
+				ak := absentKey(k)
+				add("one-component-too-many", append(cp(prefix), c08fseg{k.Name, i, append(ak, "x")}))
+				if k.NKeys > 1 {
+					add("one-component-too-few", append(cp(prefix), c08fseg{k.Name, i, ak[:k.NKeys-1]}))
+				}
+			}
+		}
+		add("unknown-name", append(cp(prefix), c08fseg{"nosuchname", len(kids), nil}))
+	}
+	level(nil, dc.kids, tree)
+	for ni, n := range nodes {
+		if ni > 25 {
+			break
+		}
+		segs, kids, body := resolve(n)
+		if segs == nil || body == nil {
+			continue
+		}
+		add("existing", segs)
+		if r.Chance(60) {
+			level(segs, kids, body)
+		}
+		if len(segs) > 1 && r.Chance(30) {
+			// an unknown name in the middle is refused whatever stands behind it
+			j := r.Intn(len(segs) - 1)
+			mid := cp(segs)
+			mid[j] = c08fseg{"nosuchname", 99, nil}
+			add("unknown-name-in-the-middle", mid)
+		}
+	}
+}
+
+func c08findModelCompare(c *core.Ctx, lines []string, pends []c08fpend) {
+	outs, err := core.RunDriver(lines)
+	if err != nil {
+		c.ProofBroken = append(c.ProofBroken, err.Error())
+		return
+	}
+	for i, o := range outs {
+		model := c08sortRows(strings.TrimSpace(o))
+		if i%997 == 0 {
+			c.Sample(map[string]string{"case": pends[i].desc, "library": pends[i].lib, "model": model})
+		}
+		c.Count("find-model-verdict", strings.Join(strings.Fields(model+" -")[:2], " "))
+		if model != pends[i].lib {
+			in := pends[i].input
+			in["library"] = pends[i].lib
+			in["model"] = model
+			c.Violation(core.Replay{Kind: "property-failure", Class: "find-model-" + fmt.Sprint(in["kind"]) + "-" + fmt.Sprint(in["target_impl"]),
+				Summary: fmt.Sprintf("%s: the library gives %q; the walk to the addressed node (Model/Find) gives %q", pends[i].desc, pends[i].lib, model), Input: in})
+		}
 	}
 }
